@@ -479,3 +479,56 @@ pub fn i256_div_mod_floor(
     }
     Some((q, r))
 }
+
+/// Access to private kernels for external verification harnesses.
+/// Compiled only with `--cfg fpdec_verif`; not part of the API.
+#[cfg(fpdec_verif)]
+#[doc(hidden)]
+pub mod verif_hooks {
+    pub use crate::parser::verif_hooks::{
+        chunk_contains_8_digits, chunk_to_u64,
+    };
+
+    #[must_use]
+    pub fn less_than_5(val: u32) -> u32 {
+        super::less_than_5(val)
+    }
+
+    #[must_use]
+    pub fn u128_msb(i: u128) -> u8 {
+        super::u128_msb(i)
+    }
+
+    #[must_use]
+    pub fn u128_mul_u128(x: u128, y: u128) -> (u128, u128) {
+        super::u128_mul_u128(x, y)
+    }
+
+    /// Returns (quotient high, quotient low, remainder).
+    #[must_use]
+    pub fn u256_idiv_u64(xh: u128, xl: u128, y: u64) -> (u128, u128, u128) {
+        let (mut h, mut l) = (xh, xl);
+        let r = super::u256_idiv_u64(&mut h, &mut l, y);
+        (h, l, r)
+    }
+
+    /// Returns (quotient high, quotient low, remainder).
+    #[must_use]
+    pub fn u256_idiv_u128_special(
+        xh: u128,
+        xl: u128,
+        y: u128,
+    ) -> (u128, u128, u128) {
+        let (mut h, mut l) = (xh, xl);
+        let r = super::u256_idiv_u128_special(&mut h, &mut l, y);
+        (h, l, r)
+    }
+
+    /// Returns (quotient high, quotient low, remainder).
+    #[must_use]
+    pub fn u256_idiv_u128(xh: u128, xl: u128, y: u128) -> (u128, u128, u128) {
+        let (mut h, mut l) = (xh, xl);
+        let r = super::u256_idiv_u128(&mut h, &mut l, y);
+        (h, l, r)
+    }
+}
